@@ -540,7 +540,9 @@ func getPKI() *pki {
 	p.ServerMTLSCfg = &tls.Config{Certificates: []tls.Certificate{srvCert}, ClientAuth: tls.RequireAndVerifyClientCert, ClientCAs: pool, MinVersion: tls.VersionTLS13, SessionTicketsDisabled: true}
 	p.ClientCfg = &tls.Config{RootCAs: pool, ServerName: "localhost", MinVersion: tls.VersionTLS13}
 	p.ClientCertCfg = &tls.Config{RootCAs: pool, ServerName: "localhost", Certificates: []tls.Certificate{cliCert}, MinVersion: tls.VersionTLS13}
-	p.OtherCfg = &tls.Config{RootCAs: pool, ServerName: "localhost", Certificates: []tls.Certificate{otherCert}, MinVersion: tls.VersionTLS13}
+	p.OtherCfg = &tls.Config{RootCAs: pool, ServerName: "localhost", MinVersion: tls.VersionTLS13,
+		// present the foreign certificate even though the server's acceptable-CA list does not name its issuer
+		GetClientCertificate: func(*tls.CertificateRequestInfo) (*tls.Certificate, error) { return &otherCert, nil }}
 	thePKI = p
 	return p
 }
